@@ -63,7 +63,7 @@ def make_fn(i, rec, failing, raised):
 
 
 def gen_spec(rng, nmax=8, p_lit=0.2, p_dep=0.25, p_kw=0.3, cyclic=False):
-    n = rng.randint(1, nmax)
+    n = rng.randint(1, nmax) if rng.random() < 0.2 else rng.randint(min(4, nmax), nmax)
     nodes = []
     for i in range(n):
         scope = [rng.choice(["a", "b", 1, 2])] if rng.random() < 0.3 else []
